@@ -409,13 +409,14 @@ def units(w):
                 it.check("post:original-receiver-is-passed-first-then-the-arguments", len(vs) == 2 and vs[0] is c["recv"]
                          and z3.is_true(z3.simplify(val_id(vs[1], V) == VAL(z3.IntVal(0)))))
         return post
-    for depth in (1, 2, 3):
+    for depth in (1, 2, 3, 4, 5):
         for where in range(-1, depth):
             for tail in (None, "cycle", "scalar"):
                 U.append(Unit("nodes.py::NodeDerefInvoke.evaluate", s_method(depth, where, tail), p_method(depth, where),
                               name=f"nodes.py::NodeDerefInvoke.evaluate[chain {depth}, member at {where}" + (f", chain ends in a {tail}" if tail else "") + "]",
-                              prepare=install, bounded="prototype chains of depth <= 3", replay=replay_prog,
+                              prepare=install, bounded="prototype chains of depth <= 3 (<= 5 in the thorough tier)", replay=replay_prog,
                               config={"max_unroll": 8, "unroll_overflow_is_nontermination": True}))
+                U[-1].thorough_only = depth > 3
 
     # member read through the chain (NodeDeref, object branch) and ValueObject.resolveItem: same walk, same ends
     def s_read(depth, where, tail, target):
@@ -450,13 +451,14 @@ def units(w):
                          and z3.eq(o.value.z, z3.Int(f"found{w_}")))
         return post
     for target, qual in (("NodeDeref", "nodes.py::NodeDeref.evaluate"), ("resolveItem", "values.py::ValueObject.resolveItem")):
-        for depth in (1, 2, 3):
+        for depth in (1, 2, 3, 4, 5):
             for where in range(-1, depth):
                 for tail in (None, "cycle", "scalar"):
                     U.append(Unit(qual, s_read(depth, where, tail, target), p_read(target),
                                   name=f"{qual}[chain {depth}, member at {where}" + (f", chain ends in a {tail}" if tail else "") + "]",
-                                  prepare=install, bounded="prototype chains of depth <= 3", replay=replay_prog, allowed=(),
+                                  prepare=install, bounded="prototype chains of depth <= 3 (<= 5 in the thorough tier)", replay=replay_prog, allowed=(),
                                   config={"max_unroll": 8, "unroll_overflow_is_nontermination": True}))
+                    U[-1].thorough_only = depth > 3
 
     # ================================================================== Args.setArgs against the binding spec (symbolic-bounded)
     def bind_spec(params, rest, names, values):
